@@ -111,6 +111,27 @@ def sequences(location, max_len, addrs, vals, with_byte_store=False, with_hash=T
             yield s
 
 
+def windows(location, mid_len, addrs, vals, with_hash=True):
+    """Forwarding windows: store(A, s(2)) ; <every sequence of exactly mid_len accesses> ; load(A).  The exhaustive families stop at 3-4
+    accesses; a forwarding rule that looks at what lies between the store and the load (and pardons some of it) needs a longer window
+    to go wrong: an unrelated load, a hash, and an overwriting store before the load that is forwarded."""
+    st, ld = ("mstore", "mload") if location == "memory" else ("sstore", "sload")
+    A = addrs[0]
+
+    def extend(seq, n_loads, n_hash, left):
+        if left == 0:
+            yield seq + [((A, f"{ld}{n_loads}"), 1)]
+            return
+        values = list(vals) + [f"u{k}" for k in range(n_loads)]
+        for a in addrs:
+            for v in values:
+                yield from extend(seq + [((a, v, st), 2)], n_loads, n_hash, left - 1)
+            yield from extend(seq + [((a, f"{ld}{n_loads}"), 1)], n_loads + 1, n_hash, left - 1)
+            if with_hash and location == "memory":
+                yield from extend(seq + [((a, str(WORD), f"keccak256{n_hash}"), 2)], n_loads, n_hash + 1, left - 1)
+    yield from extend([((A, "s(2)", st), 2)], 0, 0, mid_len)
+
+
 GRID = [0, 1, 31, 32, 33, 64, 500]
 
 
@@ -153,6 +174,7 @@ class MemEngine:
             if "step" in str(e):
                 return {"rules": list(self.env["rules_applied"]), "mismatch": {"kind": "diverges", "what": str(e)}}
             raise AnalysisError(f"memory simplification: cannot interpret {self.entry.name} on [{show(seq)}]: {e}")
+        self.last = {"before": before, "after": list(work), "discount": self.env.get("discount_op", 0)}
         if work == before:
             return None
         fired = list(self.env["rules_applied"])
@@ -206,7 +228,8 @@ def _worker(args):
     if "eng" not in _W:
         from .ctx import Ctx
         _W["eng"] = MemEngine(Ctx(root, overlay=overlay), entry, module)
-    return examine(_W["eng"], location, itertools.islice(sequences(location, *params), lo, None, step))
+    fam = windows(location, *params[1:]) if params and params[0] == "windows" else sequences(location, *params)
+    return examine(_W["eng"], location, itertools.islice(fam, lo, None, step))
 
 
 def examine_parallel(ctx, entry, module, location, params, jobs=16):
